@@ -4,6 +4,8 @@
   schedule = arbitrary list of thread numbers (a blocked or finished thread's turn is a no-op).
 -/
 import AeicProofs.Lemmas.ThreadGuard
+import AeicProofs.Lemmas.GuardLang
+import AeicModel.Generated.Guard
 
 namespace C20
 open Aeic.ThreadGuard
@@ -67,5 +69,24 @@ theorem race_witness :
 /-- with the lock the same interleaving admits exactly one -/
 example : (run (G.init true) [0, 1, 0, 1, 0, 0, 1, 1, 1, 1, 1, 1, 1, 1]).pc 0 = .done true ∧
     (run (G.init true) [0, 1, 0, 1, 0, 0, 1, 1, 1, 1, 1, 1, 1, 1]).pc 1 = .done false := by decide
+
+
+/-! ### the guard as the translator reads it from the source, re-checked on every build -/
+open Aeic.GuardLang in
+/-- **Mutual exclusion for the guard program regenerated from `store.py`.** For the statements the translator extracts
+    from `TrajectoryStore.__init__` (`Aeic.Gen.guardProgram`), compiled to instructions, no interleaving of two racing
+    threads — schedule of any length — ends with both constructors succeeding. The kernel computes the set of reachable
+    states, checks that it is closed under both threads' steps and contains no bad state; `safe_of_closed` lifts that to all
+    schedules. (If the source is changed so that the race is possible again, this theorem no longer checks.) -/
+theorem generated_guard_mutual_exclusion (sched : List Bool) :
+    bothOk (compile Aeic.Gen.guardProgram) (run (compile Aeic.Gen.guardProgram) S.init sched) = false :=
+  safe_of_closed _ (reach (compile Aeic.Gen.guardProgram) 400 [S.init]) (by decide +kernel) (by decide +kernel)
+    (by decide +kernel) sched
+
+open Aeic.GuardLang in
+/-- the same pipeline on the original, unlocked guard finds the race (so the check above is not vacuous) -/
+theorem unlocked_guard_race_reachable :
+    (reach (compile [.ifOwnerSet [.ifOwnerNotMe [.raise] []] [.setOwnerMe]]) 400 [S.init]).any
+      (bothOk (compile [.ifOwnerSet [.ifOwnerNotMe [.raise] []] [.setOwnerMe]])) = true := by decide +kernel
 
 end C20
